@@ -44,10 +44,27 @@ func enc32(o *hx.Out, cat string, v int32) {
 	// decode what was written, with trailing bytes
 	tail := []byte{0x80, 0x01, 0xff}
 	rd := bytes.NewReader(append(append([]byte{}, b...), tail...))
-	var back pk.VarInt
+	// the destination is REUSED: it holds an arbitrary earlier value (the result must not depend on it)
+	back := pk.VarInt(prior(o))
 	nn, err := back.ReadFrom(plain{rd})
 	if err != nil || back != pk.VarInt(v) || int(nn) != len(b) || rd.Len() != len(tail) {
 		o.Fail("C05.rt32", "v=%d back=%d nn=%d left=%d err=%v", v, back, nn, rd.Len(), err)
+	}
+}
+
+// prior is what a reused destination variable held before ReadFrom: zero, all ones, single bits, random
+func prior(o *hx.Out) int64 {
+	switch o.R.Intn(6) {
+	case 0:
+		return 0
+	case 1:
+		return -1
+	case 2:
+		return int64(1) << uint(o.R.Intn(64))
+	case 3:
+		return 0x7f
+	default:
+		return int64(o.R.Next())
 	}
 }
 
@@ -65,7 +82,7 @@ func enc64(o *hx.Out, cat string, v int64) {
 	}
 	tail := []byte{0x80, 0x01, 0xff}
 	rd := bytes.NewReader(append(append([]byte{}, b...), tail...))
-	var back pk.VarLong
+	back := pk.VarLong(prior(o))
 	nn, err := back.ReadFrom(plain{rd})
 	if err != nil || back != pk.VarLong(v) || int(nn) != len(b) || rd.Len() != len(tail) {
 		o.Fail("C05.rt64", "v=%d back=%d nn=%d left=%d err=%v", v, back, nn, rd.Len(), err)
@@ -82,11 +99,11 @@ func dec(o *hx.Out, cat string, wide bool, b []byte) {
 	op, limit := "dec32", pk.MaxVarIntLen
 	if wide {
 		op, limit = "dec64", pk.MaxVarLongLen
-		var v pk.VarLong
+		v := pk.VarLong(prior(o))
 		nn, err = v.ReadFrom(plain{rd})
 		val = int64(v)
 	} else {
-		var v pk.VarInt
+		v := pk.VarInt(prior(o))
 		nn, err = v.ReadFrom(plain{rd})
 		val = int64(v)
 	}
